@@ -307,7 +307,8 @@ impl StoreEntryError {
 #[derive(Clone, Debug, Error)]
 #[non_exhaustive]
 pub enum StoreError {
-    /// Tried to insert a path whose ancestor is in the store already, implying nesting a file under a file.
+    /// Tried to insert a path whose ancestor is in the store already or which is an ancestor of a path
+    /// in the store already, implying nesting a file under a file.
     #[error("the parent of the file is a file itself")]
     DirUnderFile,
     /// The path was empty.
